@@ -11,7 +11,7 @@ for v, w in zip(lin, lout):
     if not (os.path.exists(os.path.join(src, "%s.diff" % v)) and os.path.exists(os.path.join(src, "demo_%s.py" % v))):
         print("missing", pid, v)
         continue
-    dst = "/verif/seeded/%s%s" % (pid, w)
+    dst = "/verif/%s/%s%s" % (os.environ.get("VF_SEED_DIR", "seeded"), pid, w)
     os.makedirs(dst, exist_ok=True)
     shutil.copy(os.path.join(src, "%s.diff" % v), os.path.join(dst, "patch.diff"))
     shutil.copy(os.path.join(src, "demo_%s.py" % v), os.path.join(dst, "demo.py"))
